@@ -462,10 +462,12 @@ class TLSRecordLayer(object):
         :rtype: iterable
         :returns: A generator; see above for details.
         """
-        try:
-            if self.closed:
-                raise TLSClosedConnectionError("attempt to write to closed connection")
+        # a write on an already closed connection changes nothing, in
+        # particular it does not invalidate the session
+        if self.closed:
+            raise TLSClosedConnectionError("attempt to write to closed connection")
 
+        try:
             applicationData = ApplicationData().create(bytearray(s))
             for result in self._sendMsg(applicationData, \
                                         randomizeFirstBlock=True):
